@@ -92,6 +92,9 @@ EXTRA_ATOMS = [
     A("arrfn13", "struct {t}_H13 {p}h13[2];", [("{p}h13", "arr")], support="struct {t}_H13 {{ int (*f)(int, int, int, int, int, int, int, int, int, int, int, int, int); }};"),
     A("arrarr33", "struct {t}_A33 {p}a33s[2];", [("{p}a33s", "arr")], support="struct {t}_A33 {{ char big[33]; }};"),
 ]
+# records on both sides of every size threshold the code might have (1 MiB and beyond): only used where asked for by name
+EXTRA_ATOMS += [A("huge1m", "char {p}hm[1048560];", [("{p}hm", "arr")]), A("huge1m1", "char {p}hn[1048577];", [("{p}hn", "arr")]),
+                A("huge16m", "int {p}ho[4194305];", [("{p}ho", "arr")])]
 STD_NAME_ATOMS = []
 OVERALIGNED_ARRAY_ATOMS = ["oal1d", "oal2d", "oalrow", "i128x2d", "ldx2d"]
 FNPTR_ABI_ATOMS = ["fpvec", "fpmsv", "fppm", "fpms"]
